@@ -63,6 +63,11 @@ def mk_scn(rng: random.Random, unauthorised: str = "") -> dict:
             # an ordinary persistent connection into the very attribute the agents write with set_data
             conns.append({"src": "X", "se": "e0", "sa": "o", "dst": "A", "de": ents_a[0], "da": rng.choice(["c", "d", "c2"])})
             sims[0]["ins"]["c2"] = "nontrigger"
+    if rng.random() < 0.35:
+        # simulator groups: the controlled simulator and its agents in the same group, nested or apart
+        choice = rng.choice([([0], [0]), ([0], [0, 0]), ([0, 0], [0]), ([0], [1]), ([], [0]), ([0], [])])
+        for s_ in sims:
+            s_["path"] = list(choice[0] if s_["sid"] in ("A", "X") else choice[1])
     if unauthorised:
         # an agent without (async) connection to A tries to write / read
         beh = {"seed": 9, "sizes": [1], "agent": {"targets": [["U.e0", "A.e0", "c"]] if unauthorised != "get" else [],
@@ -73,7 +78,8 @@ def mk_scn(rng: random.Random, unauthorised: str = "") -> dict:
         if unauthorised in ("plain_conn", "get"):
             conns.append({"src": "A", "se": "e0", "sa": "o", "dst": "U", "de": "e0", "da": "i"})   # no async flag
     return {"until": until, "sims": sims, "conns": conns,
-            "config": {"cache": rng.random() < 0.5, "lazy": rng.random() < 0.7, "order_seed": rng.randrange(1 << 20)}}
+            "config": {"cache": rng.random() < 0.5, "lazy": rng.random() < 0.7, "order_seed": rng.randrange(1 << 20),
+                       "debug": rng.random() < 0.2}}
 
 
 def judge(scn, tr, a: Analysis) -> List[dict]:
